@@ -11,23 +11,21 @@ variable {fuel env : Nat} {s s' : St}
 /-- **`new` is fresh.** `it.new(args)` returns a new iterator identity; every existing iterator entry and every
     existing scope is left exactly as it was; the new iterator's scope is a new frame holding the bound
     arguments, enclosed in the scope where the literal was written. -/
-theorem new_is_fresh (id : Nat) (args : List Val) (kwargs : List (String × Val)) :
-    let it := s.iters.getD id default
+theorem new_is_fresh (id : Nat) (it : IterSt) (hid : s.iters[id]? = some it) (args : List Val) (kwargs : List (String × Val)) :
     builtinCall (fuel + 1) "new" (.iter id) args kwargs env s
       = (.ok (.iter s.iters.length),
          { s with
            frames := s.frames ++ [{ vars := bindArgs it.params it.kwd args kwargs [], outer := (s.frames.getD it.env default).outer }],
            iters := s.iters ++ [{ it with env := s.frames.length }] }) := by
-  simp [builtinCall, bindM, getIter, frameOuter, allocFrame, allocIter]
+  simp [builtinCall, bindM, getIter, hid, frameOuter, newIter]
 
 /-- **A chain works on a copy.** Iterating over an iterator (`@`, `$`, `A`) starts from a new identity whose
     scope is a copy of the iterator's current scope; the iterator itself is not touched by taking the copy. -/
-theorem chain_source_is_copy (id : Nat) :
-    let it := s.iters.getD id default
+theorem chain_source_is_copy (id : Nat) (it : IterSt) (hid : s.iters[id]? = some it) :
     srcOf (fuel + 1) (.iter id) s
       = (.ok (.iter s.iters.length),
          { s with frames := s.frames ++ [s.frames.getD it.env default], iters := s.iters ++ [{ it with env := s.frames.length }] }) := by
-  simp [srcOf, bindM, getIter, copyFrame, allocIter]
+  simp [srcOf, bindM, getIter, hid, copyIter, newIter]
 
 /-- existing entries are still there after `new` / a chain copy -/
 theorem getD_append_left {α : Type} (l : List α) (x d : α) (i : Nat) (h : i < l.length) : (l ++ [x]).getD i d = l.getD i d := by
@@ -35,26 +33,24 @@ theorem getD_append_left {α : Type} (l : List α) (x d : α) (i : Nat) (h : i <
 
 /-- **`recur` swaps only its own iterator.** It points iterator `id` to a new frame (the re-bound arguments,
     enclosed in the literal's defining scope); all other iterators and all existing scopes are unchanged. -/
-theorem recur_swaps_only_self (id : Nat) (args : List Val) (kwargs : List (String × Val)) :
-    let it := s.iters.getD id default
+theorem recur_swaps_only_self (id : Nat) (it : IterSt) (hid : s.iters[id]? = some it) (args : List Val) (kwargs : List (String × Val)) :
     callVal (fuel + 1) (.recur id) args kwargs s
       = (.ok .nil,
          { s with
            frames := s.frames ++ [{ vars := bindArgs it.params it.kwd args kwargs [], outer := (s.frames.getD it.env default).outer }],
            iters := s.iters.modify id (fun it => { it with env := s.frames.length }) }) := by
-  simp [callVal, bindM, getIter, frameOuter, allocFrame, setIterEnv]
+  simp [callVal, bindM, getIter, hid, frameOuter, repointIter]
 
 theorem recur_other_untouched (id j : Nat) (hj : j ≠ id) (its : List IterSt) (f : IterSt → IterSt) :
     (its.modify id f)[j]? = its[j]? := by
   rw [List.getElem?_modify]; simp [Ne.symm hj]
 
 /-- **`next` evaluates the body once** in the iterator's own scope, with `recur` bound there. -/
-theorem next_runs_body (id : Nat) :
-    let it := s.iters.getD id default
+theorem next_runs_body (id : Nat) (it : IterSt) (hid : s.iters[id]? = some it) :
     iterNext (fuel + 1) id s
       = evalStmts fuel it.body it.env
           { s with frames := s.frames.modify it.env (fun fr => { fr with vars := setAssoc "recur" (.recur id) fr.vars }) } := by
-  simp [iterNext, bindM, getIter, setVar]
+  simp [iterNext, bindM, getIter, hid, setVar]
 
 /-- **A guarded `yield` whose condition is false raises StopIterErr** (and evaluates nothing else of the statement). -/
 theorem guarded_yield_stops (e cond : Expr) (vc : Val) (s1 : St)
